@@ -125,7 +125,7 @@ def make_case(cs, rnd):
         slots, leaves = faults.index(prog)
         if leaves:
             struct, nid, top = rnd.choice(leaves)
-            struct[1] = [rnd.choice(["runaway", "runaway", "lazyrunaway"]), rnd.choice([120, 300, 700])]
+            struct[1] = [rnd.choice(["runaway", "runaway", "lazyrunaway"]), rnd.choice([120, 300, 700]), rnd.choice([0, 0, 1, 2, 3])]
             opts["max_stack"] = rnd.choice([50, 100])
             # bodies must not swallow the guard's RuntimeError and continue on a reset scheduler
             for node in prog["nodes"]:
